@@ -26,9 +26,13 @@ CHECKS = {
         "suffixed names, reserved words) named by the real build_signal_namespace/SignalNamespace under seeded request orders "
         "with repeats: after every request the signal->name map must be injective and stable, names legal and not reserved "
         "(harness's own keyword list); batches of small designs converted by the real convert() in three fresh interpreters "
-        "with different PYTHONHASHSEED: declarations unique/legal/not reserved, texts identical apart from the date line.",
+        "with different PYTHONHASHSEED: declarations unique/legal/not reserved, texts identical apart from the date line; a "
+        "'clash' family concentrates names around one base name and its numbered forms (x, x, x_1, x_2, x_1_1), a "
+        "'convert_off' family converts the same designs after different amounts of unrelated prior allocation (DUID offsets) in "
+        "the region where the clean tree is reproducible (equal names through identical back-traces, slice proxies).",
    note="Caveat (DESIGN.md 5.C02): the schedule is the request order and the interpreter hash order; there is no clock and no "
-        "fault dimension.",
+        "fault dimension. Known finding C02-F3: equal names reached through different paths are numbered in set-iteration "
+        "(DUID value) order.",
    tech="seeded search over name-request orders and interpreter hash seeds against the real namer (deterministic, no faults)"),
  "C03": dict(cat="exploration", ref="DESIGN.md 5.C03",
    text="Seeded search over valid/ready schedules, token sequences and parameters of every stream element and of 2-3 element "
